@@ -442,6 +442,30 @@ func checkStringForm(p *Prog, c *Check) {
 			if isCall {
 				fc = AsFmtCall(call)
 			}
+			if fc == nil {
+				// concatenation form: v + ", malformed! " + …  (leftmost operand the original text, a constant
+				// operand containing the mark)
+				var ops []ssa.Value
+				var flat func(v ssa.Value)
+				flat = func(v ssa.Value) {
+					if bo, ok := v.(*ssa.BinOp); ok && bo.Op == token.ADD {
+						flat(bo.X)
+						flat(bo.Y)
+						return
+					}
+					ops = append(ops, v)
+				}
+				flat(r)
+				mark := false
+				for _, o := range ops {
+					if cst, ok := o.(*ssa.Const); ok && cst.Value != nil && strings.Contains(cst.Value.ExactString(), "malformed!") {
+						mark = true
+					}
+				}
+				if len(ops) >= 2 && ops[0] == ssa.Value(helper.Params[1]) && mark {
+					continue
+				}
+			}
 			if fc == nil || !fc.ConstF || !strings.Contains(fc.Format, "malformed!") {
 				okH = false
 				c.Bad("R17.2", hc, posOf(p, ret), "on the malformed side the helper does not return a constant format containing \"malformed!\"")
